@@ -402,6 +402,24 @@ func runC08(r *ev.Run) {
 				flushes++
 				r.Count("ops:flush", 1)
 			case c < 16:
+				if rng.IntN(3) == 0 {
+					// Train() through the store (a no-op for a flat template, an error without a vector template): it
+					// replaces the writable memtable, whose documents must stay visible
+					sample := make([][]float32, 4+rng.IntN(4))
+					for i := range sample {
+						sample[i] = make([]float32, p.Dim)
+						for j := range sample[i] {
+							sample[i][j] = float32(rng.NormFloat64())
+						}
+					}
+					err := s.Train(sample)
+					log = append(log, fmt.Sprintf("Train -> %v", err))
+					if (err != nil) != (p.VecKind == "") {
+						rep("store.train-result", fmt.Sprintf("Train on a store with vector template %q returned %v", p.VecKind, err))
+					}
+					r.Count("ops:train", 1)
+					break
+				}
 				s.VerifRotate()
 				rotations++
 				log = append(log, "rotate")
